@@ -8,6 +8,7 @@ import (
 	"math"
 	"os"
 	"strings"
+	"time"
 
 	"golang.org/x/tools/go/ssa"
 )
@@ -125,6 +126,10 @@ type Interp struct {
 	mapRot        int
 	pathViolated  bool
 	isolver       *Solver
+	oneSided      []oneSidedRec
+	traced        []Observation
+	deadline      time.Time
+	aborted       bool
 	bounds        *boundsInfo
 	intQueries    int
 	mapRotK       int
@@ -141,6 +146,13 @@ type Interp struct {
 }
 
 var debugQ = os.Getenv("GOSYM_DEBUG_Q") != ""
+var debugDecide = os.Getenv("GOSYM_DEBUG_DECIDE") != ""
+
+type oneSidedRec struct {
+	t    *Term
+	val  bool
+	site string
+}
 
 type Observation struct {
 	Name string
@@ -160,6 +172,7 @@ type JobConfig struct {
 	UnwindBound int
 	ShuffleSwaps int
 	EagerAsserts bool
+	JobTimeoutS  int
 	AssertPrefix []string
 	NoIntMode    bool
 	NoModelDecide bool
@@ -198,6 +211,9 @@ func (in *Interp) curHash() uint64 {
 }
 
 func (in *Interp) addKnown(t *Term, val bool) {
+	if debugDecide && in.spec == 0 {
+		in.oneSided = append(in.oneSided, oneSidedRec{t, val, in.curSite})
+	}
 	if t.Op == OpNot {
 		in.addKnown(t.Args[0], !val)
 		return
@@ -473,6 +489,24 @@ func (in *Interp) recordViolation(kind, id, msg string, bad *Term, kfID string, 
 		if m == nil {
 			return
 		}
+		if debugDecide {
+			memo := map[int]uint64{}
+			fmt.Fprintf(os.Stderr, "VIOLATION-TRACE %s model=%v choices=%v\n", id, m, in.choiceLog)
+			for _, o := range in.traced {
+				fmt.Fprintf(os.Stderr, "  TR %s = %d\n", o.Name, int64(in.ts.Eval(o.Term, m, memo)))
+			}
+			for _, r := range in.oneSided {
+				got := in.ts.Eval(r.t, m, memo) == 1
+				if got != r.val {
+					s := r.t.String()
+					if len(s) > 600 {
+						s = s[:600]
+					}
+					fmt.Fprintf(os.Stderr, "DECIDE-MISMATCH for %s: assumed %v at %s but model gives %v: %s\n", id, r.val, r.site, got, s)
+					break
+				}
+			}
+		}
 		in.violSeen[key]++
 		var ord []string
 		for _, v := range in.inputs {
@@ -588,9 +622,14 @@ func (in *Interp) constValue(c *ssa.Const) Value {
 	panic(unsupported{"constant of type " + t.String()})
 }
 
+type jobAbort struct{ why string }
+
 func (in *Interp) tick() {
 	in.steps++
 	in.Stats.Steps++
+	if in.Stats.Steps&8191 == 0 && !in.deadline.IsZero() && time.Now().After(in.deadline) {
+		panic(jobAbort{"job time limit"})
+	}
 	if in.steps > in.cfg.MaxSteps {
 		if in.spec > 0 {
 			panic(specAbort{"budget"})
@@ -728,7 +767,7 @@ func (in *Interp) runBlock(fr *Frame, b *ssa.BasicBlock, from int) *ssa.BasicBlo
 		switch instr := instrs[i].(type) {
 		case *ssa.If:
 			c := fr.get(in, instr.Cond).(*Term)
-			if debugQ {
+			if debugQ || debugDecide {
 				in.curSite = fmt.Sprintf("%s#%d", fr.fn.Name(), b.Index)
 			}
 			switch in.decide(c) {
@@ -1685,7 +1724,7 @@ func (in *Interp) mapDelete(m *MapObj, key Value) {
 func (in *Interp) rangeStart(fr *Frame, x *ssa.Range) Value {
 	switch b := fr.get(in, x.X).(type) {
 	case MapV:
-		it := &mapIter{}
+		it := &mapIter{pos: in.newCell(0)}
 		if in.guardOn && b.m != nil && in.guardMaps[b.m] {
 			in.checkGuard("read")
 		}
@@ -1768,11 +1807,15 @@ func (in *Interp) rangeNext(fr *Frame, x *ssa.Next) Value {
 		panic(unsupported{"next on non-map iterator"})
 	}
 	mt := x.Iter.(*ssa.Range).X.Type().Underlying().(*types.Map)
-	if it.pos >= len(it.keys) {
+	pos := it.pos.v.(int)
+	if pos >= len(it.keys) {
 		return TupleV{in.ts.False, in.zero(mt.Key()), in.zero(mt.Elem())}
 	}
-	k, v := it.keys[it.pos], it.vals[it.pos]
-	it.pos++
+	k, v := it.keys[pos], it.vals[pos]
+	if in.spec > 0 {
+		in.journal = append(in.journal, jentry{it.pos, it.pos.v})
+	}
+	it.pos.v = pos + 1
 	return TupleV{in.ts.True, k, v}
 }
 
